@@ -181,22 +181,9 @@ func TestVerifC20(t *testing.T) {
 							got = append(got, cl)
 						}
 					}
-					if c20Panicked == n {
-						// a panicking callback: only "no callback twice for the same transition" remains
-						seen := map[string]bool{}
-						for _, g := range got {
-							k := g.op + g.tag
-							if g.op != "Close" {
-								k = g.op
-							}
-							if seen[k] {
-								c.Failf("callback-repeated-after-panic", "snapshot %d name %s: %v", step+1, n, got)
-							}
-							seen[k] = true
-						}
-						delete(live, n)
-						continue
-					}
+					// a callback of this name may have panicked (now or in an earlier snapshot): the call is in the record
+					// like any other, and the lifecycle goes on as if it had returned: e.g. an object whose Init
+					// panicked is still closed exactly once when its name disappears
 					prev, cur := live[n], snap[n]
 					var want []string
 					switch {
